@@ -5,6 +5,7 @@
 package os
 
 import (
+	"io"
 	"io/fs"
 	ros "os"
 
@@ -56,6 +57,10 @@ type File struct {
 	std  int // 1 = stdout, 2 = stderr of the simulated process
 	kfd  *zsim.FD
 	name string
+	// directory handles: entries in directory order, read position
+	dirEntries []DirEntry
+	dirPos     int
+	dirRead    bool
 }
 
 var (
@@ -112,9 +117,32 @@ func (f *File) Stat() (FileInfo, error) {
 	return nil, &fs.PathError{Op: "stat", Path: f.name, Err: fs.ErrInvalid}
 }
 
+// ReadDir on an open directory follows (*os.File).ReadDir: entries come in DIRECTORY order (not
+// sorted — only os.ReadDir sorts), n > 0 pages through them and ends with io.EOF.
 func (f *File) ReadDir(n int) ([]DirEntry, error) {
 	if f.sim != nil {
-		return disk().ReadDir(f.sim.Path)
+		if !f.dirRead {
+			es, err := disk().ReadDirNative(f.sim.Path)
+			if err != nil {
+				return nil, err
+			}
+			f.dirEntries, f.dirRead = es, true
+		}
+		if n <= 0 {
+			es := f.dirEntries[f.dirPos:]
+			f.dirPos = len(f.dirEntries)
+			return es, nil
+		}
+		if f.dirPos >= len(f.dirEntries) {
+			return nil, io.EOF
+		}
+		end := f.dirPos + n
+		if end > len(f.dirEntries) {
+			end = len(f.dirEntries)
+		}
+		es := f.dirEntries[f.dirPos:end]
+		f.dirPos = end
+		return es, nil
 	}
 	if f.real != nil {
 		return f.real.ReadDir(n)
